@@ -168,6 +168,27 @@ def replay_relation(case) -> dict:
         w2 = sum(s.count() * np.asarray(s.average(), dtype=np.float64) for s in subs) / N
         if float(np.max(np.abs(got - w2))) > 1e-4:
             fails.append(dict(desc, clause="BatchAverageIsMeanOverItsSubLoaders", how=how, maxerr=float(np.max(np.abs(got - w2)))))
+    # the half maps that come with an FSC are the plain means of the two halves, whatever mask the FSC itself is computed under
+    zz, yy, xx = np.indices(box)
+    cen = (np.array(box) - 1) / 2
+    msk = np.clip(1.5 - np.sqrt((zz - cen[0]) ** 2 + (yy - cen[1]) ** 2 + (xx - cen[2]) ** 2) / max(box) * 2, 0.1, 1).astype(np.float32)
+    plain = np.asarray(engine.api(b.average_split, n_set=2, seed=case["seed"], squeeze=False), dtype=np.float64)
+    for mk, m in (("none", None), ("array", msk)):
+        raw = engine.api(b.fsc_with_halfmaps, mask=m, seed=case["seed"], n_set=2, zero_norm=False, squeeze=False).halfmaps
+        hm = np.stack([np.stack([np.asarray(raw[0][i], dtype=np.float64), np.asarray(raw[1][i], dtype=np.float64)]) for i in range(2)])
+        if hm.shape != plain.shape or float(np.max(np.abs(hm - plain))) > 1e-4:
+            fails.append(dict(desc, clause="HalfmapsArePlainHalfMeans", mask=mk, maxerr=float(np.max(np.abs(hm - plain))) if hm.shape == plain.shape else None))
+    # a group derived from a group (head / filter / tail / sample) is a group like any other: it can be averaged again and again
+    import polars as pl
+
+    for how, g in (("head", b.groupby("image-id").head(2)), ("filter", b.groupby("image-id").filter(pl.col("image-id") >= 0)), ("tail", b.groupby("image-id").tail(2))):
+        a1 = engine.api(g.average)
+        a2 = engine.api(g.average)
+        sp = engine.api(g.average_split, n_set=1, seed=case["seed"], squeeze=False) if min(case["counts"]) >= 2 else None
+        if set(a1) != set(range(len(tomos))) or set(a2) != set(a1) or any(not np.allclose(a1[k], a2[k], atol=1e-6) for k in a1):
+            fails.append(dict(desc, clause="DerivedGroupAveragesAgain", how=how, first=sorted(int(k) for k in a1), second=sorted(int(k) for k in a2)))
+        if sp is not None and set(sp) != set(a1):
+            fails.append(dict(desc, clause="DerivedGroupSplitsAllGroups", how=how, keys=sorted(int(k) for k in sp)))
     return dict(failures=fails)
 
 
